@@ -85,6 +85,9 @@ class Fragment:
                     expanded.append(c)
             else:
                 expanded.append(h)
+        if not os.environ.get("VERIF_WIP"):
+            # per-harness work-in-progress flag: not registered (dev runs set VERIF_WIP=1)
+            expanded = [h for h in expanded if not h.get("wip")]
         self.harnesses = expanded
         for h in self.harnesses:
             h.setdefault("id", h["name"])
@@ -401,7 +404,15 @@ def run_harness(h, src, logdir):
                 and not re.search(r"CBMC failed with status|ut of memory", out):
             # pass 2 only for failing harnesses: obtain the concrete counterexample as a unit test
             cmd2 = kani_cmd(h, slot.dir, playback=True)
-            rc2, out2, to2, wall2 = run_cmd(cmd2, src, h["timeout"], max(3 * h["mem_gb"], 16, h.get("playback_mem_gb", 0)), logfile=logfile + ".playback")
+            # the trace of a failing run is large (kani-driver needed 23 GB to parse one for a 9 GB harness): generous cap, but
+            # only one playback pass at a time on this machine
+            plock = open(os.path.join(CACHE, "playback-pass.lock"), "w")
+            fcntl.flock(plock, fcntl.LOCK_EX)
+            try:
+                rc2, out2, to2, wall2 = run_cmd(cmd2, src, h["timeout"], min(48, max(5 * h["mem_gb"], 24, h.get("playback_mem_gb", 0))), logfile=logfile + ".playback")
+            finally:
+                fcntl.flock(plock, fcntl.LOCK_UN)
+                plock.close()
             wall += wall2
             pb = parse_kani_output(out2)["playback"] if not to2 else []
         else:
